@@ -11,18 +11,23 @@ EXTENDS RefMap, TLC, Json, IOUtils
 
 Rec == ndJsonDeserialize(IOEnv.TRACE)
 
-VARIABLES l, bad
-vars == <<l, bad>>
+VARIABLES l, bad, drift
+vars == <<l, bad, drift>>
 
 Has(r, f) == f \in DOMAIN r
 TableOfJson(t) == [k |-> t.k, rc |-> t.rc, names |-> t.names, rows |-> ToSet(t.rows)]
 
+\* `ref` events: RefSka::new on a reference.  Observable: a reference without any valid window is refused, any other is
+\* accepted.  The index entries and the repeat-mask coordinates are private state seen through hooks: they are compared
+\* with RefMap.tla as CONFORMANCE (a difference = model drift; what `map` prints is judged by the map events).
 RefOK(e) ==
    LET c == e.ctx
        idx == RefIndex(c.contigs, c.k, c.rc)
-   IN IF idx = <<>> THEN e.panic # ""           \* a reference without any valid window is refused
-      ELSE
-      /\ e.panic = ""
+   IN IF idx = <<>> THEN e.panic # "" ELSE e.panic = ""
+RefConforms(e) ==
+   LET c == e.ctx
+       idx == RefIndex(c.contigs, c.k, c.rc)
+   IN idx = <<>> \/ e.panic # "" \/
       /\ Len(e.index) = Len(idx)
       /\ \A i \in 1..Len(idx) :
             e.index[i] = <<idx[i].km, idx[i].mid, idx[i].pos, idx[i].chrom, idx[i].isrc>>
@@ -75,10 +80,11 @@ Accept(e) == CASE e.ev = "ref" -> RefOK(e)
                [] e.ev = "map" -> MapOK(e)
                [] OTHER -> FALSE
 
-Init == l = 1 /\ bad = {}
+Init == l = 1 /\ bad = {} /\ drift = 0
 Next == /\ l <= Len(Rec)
         /\ LET ok == Accept(Rec[l]) IN bad' = IF ok THEN bad ELSE bad \cup {l}
+        /\ drift' = IF Rec[l].ev = "ref" /\ ~RefConforms(Rec[l]) THEN drift + 1 ELSE drift
         /\ l' = l + 1
 Spec == Init /\ [][Next]_vars
-AtEnd == l > Len(Rec) => PrintT(<<"TRACE-END", ToJson([n |-> Len(Rec), bad |-> SetToSortSeq(bad, <)])>>)
+AtEnd == l > Len(Rec) => PrintT(<<"TRACE-END", ToJson([n |-> Len(Rec), bad |-> SetToSortSeq(bad, <), drift |-> drift])>>)
 =============================================================================
